@@ -1,4 +1,5 @@
 import CalVerif.Lemmas.OvbaLoops
+import CalVerif.Lemmas.OvbaDir
 /-! # C18 — VBA modules are extracted byte-exact from the compressed project
 
     Theorems about `Ovba.decompress` (model of `src/cfb.rs decompress_stream`, after the D16 fix) against the
@@ -208,5 +209,137 @@ def sample : List Chunk :=
 example : Valid sample := by decide
 example : decompress (container sample) = .ok (expand sample) := decompress_correct sample (by decide)
 example : (serialize sample).length = 30 := by decide
+
+/-! ## ledger D16: the loop before the fix -/
+
+/-- the `'chunk` loop as it was before the D16 fix: `if i >= s.len() { break; }` only -/
+def chunkLoopPre (size start : Nat) : Nat → St → Res St
+  | 0, _ => .outOfFuel
+  | fuel + 1, st =>
+    match st.rest with
+    | [] => .ok st
+    | b :: r =>
+      match tokenLoop size start 8 b.toNat { rest := r, out := st.out, olen := st.olen, clen := st.clen + 1 } with
+      | .ok (st', true) => .ok st'
+      | .ok (st', false) => chunkLoopPre size start fuel st'
+      | .err e => .err e
+      | .panic p => .panic p
+      | .outOfFuel => .outOfFuel
+
+def mainLoopPre : Nat → Bytes → Bytes → Nat → Res Bytes
+  | 0, _, _, _ => .outOfFuel
+  | fuel + 1, rest, out, olen =>
+    match rest with
+    | [] => .ok out
+    | [_] => .panic "decompress_stream: read_u16 (chunk header)"
+    | lo :: hi :: r =>
+      let header := u16le lo hi
+      let size := header &&& 0x0FFF
+      if (header &&& 0x7000) >>> 12 ≠ 3 then .panic "decompress_stream: assert_eq!(chunk_signature, 0b011)"
+      else if (header &&& 0x8000) >>> 15 = 0 then
+        if r.length < 4096 then .panic "decompress_stream: s[i..i + 4096]"
+        else mainLoopPre fuel (r.drop 4096) ((r.take 4096).reverse ++ out) (olen + 4096)
+      else
+        match chunkLoopPre size olen (r.length + 1) { rest := r, out := out, olen := olen, clen := 0 } with
+        | .ok st => mainLoopPre fuel st.rest st.out st.olen
+        | .err e => .err e
+        | .panic p => .panic p
+        | .outOfFuel => .outOfFuel
+
+/-- two chunks, the first with exactly 8 (literal) tokens -/
+def d16Witness : List Chunk :=
+  [.compressed [.lit 97, .lit 98, .lit 99, .lit 100, .lit 101, .lit 102, .lit 103, .lit 104], .compressed [.lit 120]]
+
+/-- D16, third case of DESIGN §4: on a decodable container whose non-final chunk ends on a flag-group boundary
+    the pre-fix loop takes the low byte of the next chunk header for a flag byte and then fails the chunk-signature
+    assertion, while the fixed loop (the model, by `decompress_correct_decodable`) returns the expansion. -/
+theorem d16_prefix_loop_panics :
+    mainLoopPre 20 (serialize d16Witness) [] 0 = .panic "decompress_stream: assert_eq!(chunk_signature, 0b011)" ∧
+    decompress (container d16Witness) = .ok (expand d16Witness) := by
+  refine ⟨by decide, decompress_correct_decodable d16Witness (by unfold Decodable; decide)⟩
+
+/-! ## the `dir` stream walk and the project -/
+
+/-- **dir walk.** On the serialized `dir` stream of any well-formed project description the walk returns the
+    project's code page, one reference per REFERENCE record (by name, in order, with the description/path the
+    libids determine), and exactly the MODULE records in order with their names, stream names and text offsets. -/
+theorem dir_walk (p : DirSpec) (hw : p.wf = true) :
+    dirWalk (serDir p) = .ok (p.codepage, p.refs.map refResult, p.modules.map toModule) := by
+  have hrefs : p.refs.all RefSpec.wf = true := by
+    simp only [DirSpec.wf, Bool.and_eq_true] at hw
+    exact hw.1.1.1.2
+  rw [dirWalk_ser p hw, finalRefs_named p.refs [] emptyRef hrefs]
+  simp [pushIfNamed, emptyRef]
+
+/-- the module list is the list of MODULE records, by name / stream name / offset -/
+theorem dir_walk_modules (p : DirSpec) (hw : p.wf = true) :
+    ∃ cp refs mods, dirWalk (serDir p) = .ok (cp, refs, mods) ∧
+      mods.map (·.name) = p.modules.map (·.name) ∧
+      mods.map (·.streamName) = p.modules.map (·.streamName) ∧
+      mods.map (·.textOffset) = p.modules.map (·.offset) ∧
+      refs.map (·.name) = p.refs.map (·.name) := by
+  refine ⟨_, _, _, dir_walk p hw, ?_, ?_, ?_, ?_⟩
+  · simp [toModule, Function.comp_def]
+  · simp [toModule, Function.comp_def]
+  · simp [toModule, Function.comp_def]
+  · simp [refResult_name, Function.comp_def]
+
+theorem readModuleStreams_correct (lookup : Bytes → Option Bytes) (content : ModuleSpec → List Chunk) :
+    ∀ (ms : List ModuleSpec),
+    (∀ m ∈ ms, ∃ junk, junk.length = m.offset ∧ lookup m.streamName = some (junk ++ container (content m)) ∧
+      Valid (content m)) →
+    readModuleStreams lookup (ms.map toModule) = .ok (ms.map fun m => (m.name, expand (content m)))
+  | [], _ => rfl
+  | m :: ms, h => by
+    obtain ⟨junk, hj, hl, hv⟩ := h m (by simp)
+    simp only [List.map_cons, readModuleStreams, toModule, hl]
+    rw [if_neg (by simp; omega)]
+    have hdrop : (junk ++ container (content m)).drop m.offset = container (content m) := by
+      rw [← hj]; simp
+    rw [hdrop, container, decompress_correct _ hv]
+    simp only [Res.bind_ok]
+    have ih := readModuleStreams_correct lookup content ms (fun m' hm' => h m' (by simp [hm']))
+    rw [ih]
+    simp
+
+/-- **C18, project level (model).** If the compound file's `dir` stream is any valid container of the serialized
+    project description, and every module's stream holds, from the recorded offset on, any valid container, then
+    `VbaProject::from_cfb` yields the project's code page, its references, and for every MODULE record, in order,
+    its name with exactly the bytes its container stands for. -/
+theorem project_correct (p : DirSpec) (dirCs : List Chunk) (lookup : Bytes → Option Bytes)
+    (content : ModuleSpec → List Chunk) (hw : p.wf = true) (hd : Valid dirCs) (he : expand dirCs = serDir p)
+    (hs : ∀ m ∈ p.modules, ∃ junk, junk.length = m.offset ∧
+      lookup m.streamName = some (junk ++ container (content m)) ∧ Valid (content m)) :
+    project (some (container dirCs)) lookup =
+      .ok (p.codepage, p.refs.map refResult, p.modules.map fun m => (m.name, expand (content m))) := by
+  simp only [project]
+  rw [container, decompress_correct _ hd, he]
+  simp only [Res.bind_ok]
+  rw [dir_walk p hw]
+  simp only [Res.bind_ok]
+  rw [readModuleStreams_correct lookup content p.modules hs]
+  simp
+
+/-- non-vacuity of `dir_walk`: a project with a compat record, three kinds of references and two modules -/
+def sampleDir : DirSpec :=
+  { sysKind := 1, compat := some 3, lcid := 0x409, lcidInvoke := 0x409, codepage := 1252,
+    name := [86, 66], doc := [], docUnicode := [], help1 := [], help2 := [], helpContext := 0, libFlags := 0,
+    versionMajor := 7, versionMinor := 1, constants := [], constantsUnicode := [],
+    refs := [
+      { name := [115], nameUnicode := [115, 0], body := .registered [42, 35, 112, 35, 100] },
+      { name := [116], nameUnicode := [116, 0], body := .project [42, 92, 67, 120] [42, 92, 67, 121] 1 2 },
+      { name := [117], nameUnicode := [117, 0],
+        body := .control (some [35, 35]) [97, 35, 98, 35, 99] (some ([117], [117, 0])) [] (List.replicate 16 0) 9 }],
+    cookie := 0xFFFF,
+    modules := [
+      { name := [77, 49], nameUnicode := [77, 0, 49, 0], streamName := [77, 49], streamNameUnicode := [77, 0, 49, 0],
+        doc := [], docUnicode := [], offset := 733, helpContext := 0, cookie := 0xFFFF,
+        document := false, readOnly := false, priv := true },
+      { name := [83], nameUnicode := [83, 0], streamName := [83, 50], streamNameUnicode := [83, 0, 50, 0],
+        doc := [100], docUnicode := [100, 0], offset := 0, helpContext := 0, cookie := 0xFFFF,
+        document := true, readOnly := true, priv := false }] }
+
+example : sampleDir.wf = true := by decide +kernel
+example : (serDir sampleDir).length = 508 := by decide +kernel
 
 end Ovba.C18
